@@ -71,8 +71,8 @@ Lemma write_summary_stems fn v : In v (write_summary fn) ->
   match v with Own s => has_at s = false | Shared n => In n shared_vars end.
 Proof.
   unfold write_summary. destruct (String.eqb fn "infect").
-  - simpl. intros [<-|[<-|[<-|[<-|[<-|[]]]]]]; simpl; auto.
-  - destruct (String.eqb fn "remove" || String.eqb fn "recover"); [|intros []].
+  - simpl. intros [<-|[<-|[<-|[<-|[<-|[<-|[]]]]]]]; simpl; auto.
+  - destruct (String.eqb fn "remove" || String.eqb fn "recover" || String.eqb fn "resuscept"); [|intros []].
     simpl. intros [<-|[]]. reflexivity.
 Qed.
 
@@ -89,7 +89,7 @@ Proof.
 Qed.
 
 Lemma shared_vars_no_at n : In n shared_vars -> has_at n = false.
-Proof. simpl. intros [<-|[<-|[<-|[]]]]; reflexivity. Qed.
+Proof. simpl. intros [<-|[<-|[<-|[<-|[]]]]]; reflexivity. Qed.
 
 (* for a named instance j the side condition on the shared names holds by itself *)
 Lemma named_not_shared (j stem : string) : ~ In (state_variable (Some j) stem) shared_vars.
